@@ -236,3 +236,53 @@ def nobody_can_run():
         except Exception:
             _NOBODY = False
     return _NOBODY
+
+
+FORCE_KEY_C = r"""
+#define _GNU_SOURCE
+#include <dlfcn.h>
+#include <stdarg.h>
+#include <stdlib.h>
+#include <string.h>
+#include <sys/syscall.h>
+#include <sys/types.h>
+#include <unistd.h>
+/* LD_PRELOAD shim: 16-byte requests for OS randomness are answered with the bytes given as 32 hex digits in FORCE_KEY_HEX
+   (the boss draws its 128-bit session key this way); everything else goes to the real implementation */
+static int hexval(char c) { return c <= '9' ? c - '0' : (c | 32) - 'a' + 10; }
+static int forced(void* buf, size_t len) {
+    const char* hex = getenv("FORCE_KEY_HEX");
+    if (!hex || !buf || len != 16 || strlen(hex) != 32) return 0;
+    for (int i = 0; i < 16; ++i) ((unsigned char*)buf)[i] = (unsigned char)(hexval(hex[2*i]) * 16 + hexval(hex[2*i+1]));
+    return 1;
+}
+long syscall(long n, ...) {
+    static long (*real)(long, ...) = 0;
+    if (!real) real = (long (*)(long, ...))dlsym(RTLD_NEXT, "syscall");
+    long a[6]; va_list ap; va_start(ap, n);
+    for (int i = 0; i < 6; ++i) a[i] = va_arg(ap, long);
+    va_end(ap);
+    if (n == SYS_getrandom && forced((void*)a[0], (size_t)a[1])) return 16;
+    return real(n, a[0], a[1], a[2], a[3], a[4], a[5]);
+}
+ssize_t getrandom(void* buf, size_t len, unsigned int flags) {
+    static ssize_t (*real)(void*, size_t, unsigned int) = 0;
+    if (forced(buf, len)) return 16;
+    if (!real) real = (ssize_t (*)(void*, size_t, unsigned int))dlsym(RTLD_NEXT, "getrandom");
+    return real(buf, len, flags);
+}
+"""
+
+
+def build_force_key_shim(dirname):
+    """compiles the LD_PRELOAD shim; returns its path or None (no C compiler)"""
+    src = os.path.join(dirname, 'forcekey.c'); so = os.path.join(dirname, 'forcekey.so')
+    open(src, 'w').write(FORCE_KEY_C)
+    for cc in ('cc', 'gcc', 'clang'):
+        try:
+            p = subprocess.run([cc, '-shared', '-fPIC', '-O1', '-o', so, src, '-ldl'], capture_output=True, timeout=120)
+            if p.returncode == 0 and os.path.exists(so):
+                return so
+        except (OSError, subprocess.SubprocessError):
+            continue
+    return None
